@@ -1537,6 +1537,11 @@ func c03Metrics(c *Ctx) {
 			}
 			s := ev2.Param(rd, rd.Params[0].Name())
 			start, delay := ev2.LoadField(ev2.NewState(), s, "startTime"), ev2.LoadField(ev2.NewState(), s, "delay")
+			if start == nil || delay == nil {
+				ok2 = false
+				c.Unresolved("circuitbreaker.openState.startTime/delay", "fields not found")
+				break
+			}
 			var now *T
 			for _, e := range p.Events() {
 				if isCall(e, "CurrentUnixNano") {
